@@ -58,7 +58,7 @@ def _drop(repo, top, wt):
     subprocess.run(["git", "-C", repo, "worktree", "prune"], capture_output=True)
 
 
-def _run_one(repo, pid, patch_bytes, reverse=False):
+def _run_one_impl(repo, pid, patch_bytes, reverse=False):
     """-> ("inapplicable", []) | ("reported", [rules]) | ("silent", []) | ("tooling", [msg])"""
     top, wt = _scratch(repo)
     if wt is None:
@@ -83,6 +83,16 @@ def _run_one(repo, pid, patch_bytes, reverse=False):
 
 def run(pid, repo=None, log=print):
     repo = repo or facts.REPO
+    import time
+    t0 = time.time()
+    budget = float(os.environ.get("VERIF_SELFTEST_BUDGET", "600"))      # seconds; changes not started within it are listed as skipped
+    global _run_one
+    _inner = _run_one_impl
+
+    def _run_one(repo_, pid_, patch_, reverse=False):
+        if time.time() - t0 > budget:
+            return "skipped (time budget)", []
+        return _inner(repo_, pid_, patch_, reverse)
     out = {"seeded_changes": [], "reverted_repairs": [], "benign_batches": [],
            "rule": "one recorded change per scratch copy of the working tree; the property's quick rule set is re-run on it"}
     # 1. independently produced breaking changes
@@ -128,8 +138,9 @@ def run(pid, repo=None, log=print):
     def cnt(lst, v):
         return sum(1 for x in lst if x["verdict"] == v)
     out["summary"] = {
-        "seeded_reported": cnt(out["seeded_changes"], "reported"), "seeded_total_applicable": len(out["seeded_changes"]) - cnt(out["seeded_changes"], "inapplicable"),
-        "reverts_reported": cnt(out["reverted_repairs"], "reported"), "reverts_total_applicable": len(out["reverted_repairs"]) - cnt(out["reverted_repairs"], "inapplicable"),
-        "benign_silent": cnt(out["benign_batches"], "silent"), "benign_total_applicable": len(out["benign_batches"]) - cnt(out["benign_batches"], "inapplicable"),
+        "seeded_reported": cnt(out["seeded_changes"], "reported"), "seeded_total_applicable": len(out["seeded_changes"]) - cnt(out["seeded_changes"], "inapplicable") - cnt(out["seeded_changes"], "skipped (time budget)"),
+        "reverts_reported": cnt(out["reverted_repairs"], "reported"), "reverts_total_applicable": len(out["reverted_repairs"]) - cnt(out["reverted_repairs"], "inapplicable") - cnt(out["reverted_repairs"], "skipped (time budget)"),
+        "benign_silent": cnt(out["benign_batches"], "silent"), "benign_total_applicable": len(out["benign_batches"]) - cnt(out["benign_batches"], "inapplicable") - cnt(out["benign_batches"], "skipped (time budget)"),
+        "skipped_for_time": sum(cnt(out[k_], "skipped (time budget)") for k_ in ("seeded_changes", "reverted_repairs", "benign_batches")), "budget_s": budget,
     }
     return out
